@@ -27,7 +27,7 @@ CHECKS = {
  "C04": dict(
   technique="source-level symbolic execution (S-kernel) of the fmt::Display bodies and escape() composed with the S-grammar encoding of the creating production + SMT (z3); counterexamples replayed through from_raw",
   category="model_checking",
-  text="For comment, CDATA, text, PI (no data / empty / data), character reference (both radices), entity reference, NOTATION, ENTITY (value pieces text / char ref / entity ref, external ids, NDATA), attribute (prefix, value pieces, quote selection) and the DOCTYPE header, with every field a symbolic string of <= 3 (quick) / 4 (thorough) scalar values constrained to what the parser can produce, the printer is executed symbolically and z3 decides that the printed sequence is consumed completely by the production that creates the item (and, for character references, that radix and digits are captured unchanged).",
+  text="For comment, CDATA, text, PI (no data / empty / data), character reference (both radices), entity reference, NOTATION, ENTITY (value pieces text / char ref / entity ref, external ids, NDATA), attribute (prefix, value pieces, quote selection) and the DOCTYPE header, with every field a symbolic string of <= 3 (quick) / 4 (thorough) scalar values constrained to what the parser can produce, the printer is executed symbolically and z3 decides that the printed sequence is consumed completely by the production that creates the item (for character references: radix and digits captured unchanged; for PIs: the optional data part is used exactly when the item has data, so Some(\"\") and None stay distinct).",
   note="Partial: whole documents, element nesting, PartialEq on items, the DOM delegation and IndentedDisplay are outside; captures other than character references are only checked through acceptance. The ATTLIST printer (prints nothing) is a listed known finding, re-witnessed through a real round trip each run.",
   design="4/C04", engine="S-kernel + S-grammar"),
  "C06": dict(
@@ -51,19 +51,19 @@ CHECKS = {
  "C11": dict(
   technique="source-level symbolic execution (S-kernel) of XmlAttribute::normalized_value / normalize_ws / attr_value_from_name with an XML 1.0 3.3.3 spec interpreter in the same path exploration + SMT (z3); item graph replaced by stubs over a symbolic entity table; counterexamples replayed through Attr::value on a generated document",
   category="model_checking",
-  text="For attribute values of <= 2 (quick) / 3 (thorough) pieces - text of 1-2 symbolic characters over all of Unicode, a character reference to ANY character, an entity reference - with entity tables of <= 2 entities (text, character references to tab / line feed / 'A', nested reference) and the declared types undeclared / CDATA / tokenized, z3 decides on every path that the normalized value equals the section 3.3.3 result (literal white space -> #x20, referenced characters unchanged, entity text normalized recursively, trim + collapse of #x20 only for non-CDATA types). A cyclic entity table must be refused, not recursed into.",
+  text="For attribute values of <= 2 (quick) / 3 (thorough) pieces - text of 1-2 symbolic characters over all of Unicode, a character reference to ANY character, an entity reference - with entity tables of <= 3 entities (text, character references to tab / line feed / 'A', nested references, the same entity reached twice, a diamond) and the declared types undeclared / CDATA / tokenized, z3 decides on every path that the normalized value equals the section 3.3.3 result (literal white space -> #x20, referenced characters unchanged, entity text normalized recursively, trim + collapse of #x20 only for non-CDATA types). Five cyclic entity tables (direct, mutual, closing after a successful nested reference, through three entities) must be refused, not recursed into. The interpreter with its stubs is validated against Attr::value on generated documents each run.",
   note="Partial: locating the ATTLIST declaration for an attribute, materialising defaulted attributes and the specified flag walk the item graph and are outside; ATTLIST parsing is covered by C01's dtd-attlist template; input line-end normalisation is not considered. Pieces, Context::entity and declaration_type are stubs (listed in the evidence).",
   design="4/C11", engine="S-kernel"),
  "C14": dict(
   technique="source-level symbolic execution (S-kernel) of info::DocumentOrder and the HasContext order methods with symbolic ids, anchor, version and caches + SMT (z3 BV64); one inductive step from an arbitrary valid vector; counterexamples replayed on the compiled DocumentOrder through the `verif` hook",
   category="model_checking",
-  text="From ANY valid order vector of k <= 2 (quick) / 3 (thorough) attached items with symbolic pairwise-distinct non-zero ids, one detached item, any version and any caches allowed by the cache invariant, one call of set_order_after / set_order_before (symbolic anchor id, any item as mover), clear_order or init_order is executed symbolically through DocumentOrder::{get, insert_after, insert_before, push, remove} and order(). z3 decides on every path that the keys reported afterwards are exactly 1..n in the specified sequence (non-zero, pairwise distinct, strictly increasing along it), that a failing call changes no key, and that the cache invariant holds again - so histories of any length are covered for the vector kernel within k.",
+  text="From ANY valid order vector of k <= 2 (quick) / 3 (thorough) attached items with symbolic pairwise-distinct non-zero ids, one detached item, any version and any caches allowed by the cache invariant, one call of set_order_after / set_order_before (symbolic anchor id, any item as mover), clear_order or init_order is executed symbolically through DocumentOrder::{get, insert_after, insert_before, push, remove} and order(). z3 decides on every path that the keys reported afterwards are exactly 1..n in the specified sequence (non-zero, pairwise distinct, strictly increasing along it), that a failing call changes no key, and that the cache invariant holds again - so histories of any length are covered for the vector kernel within k. The same step is decided through the dispatch table of every XmlItem variant (84 obligations), and the interpreter is validated against the compiled DocumentOrder on concrete steps each run.",
   note="Partial: which anchor the tree mutators pick (append / insert_before / attributes / subtree moves), hence the pre-order relation over the tree and query(edited) = query(re-parsed), need the item graph and are outside. Weak::upgrade is assumed to succeed.",
   design="4/C14", engine="S-kernel"),
  "C15": dict(
   technique="source-level symbolic execution (S-kernel) of the DOM character-data mutators and name factories, with the validate-by-reparse checks executed through the S-grammar encoding of the real nom productions + SMT (z3); one inductive step from an arbitrary state of the capture-language invariant; counterexamples replayed through the DOM API with print + re-parse",
   category="model_checking",
-  text="Invariant: a text / comment / CDATA node's data is in the capture language Cap(P) of the production that prints and parses it. From ANY state satisfying it (content of exactly n <= 3/4 scalar values) one insert_data / append_data / replace_data / delete_data / set_data call with any 64-bit offset/count and a symbolic argument (<= 2/3 characters) either fails or re-establishes the invariant (so histories of any length are covered for this invariant within the size bounds). Plus: two adjacent text nodes concatenate inside Cap(text); XmlElement/XmlAttribute/XmlProcessingInstruction::empty accept only a name that is stored as given; the text/comment/CDATA factories do not panic on refusable data.",
+  text="Invariant: a text / comment / CDATA node's data is in the capture language Cap(P) of the production that prints and parses it. From ANY state satisfying it (content of exactly n <= 3/4 scalar values, one more for deletions) one insert_data / append_data / replace_data / delete_data / set_data call with any 64-bit offset/count and a symbolic argument (<= 2/3 characters) either fails or re-establishes the invariant (so histories of any length are covered for this invariant within the size bounds). Plus: two adjacent text nodes concatenate inside Cap(text); XmlElement/XmlAttribute/XmlProcessingInstruction::empty accept only a name that is stored as given; the text/comment/CDATA factories do not panic on refusable data.",
   note="Outside: attribute-value piece editing, PI data, element/attribute names set after creation. adjacent-text and factory-unwrap are listed known findings (re-witnessed and replayed each run). Trusted: std models, item construction stubs in the name factories.",
   design="3/C15", engine="S-kernel + S-grammar"),
  "C16": dict(
